@@ -23,17 +23,32 @@ Theorem c15_int_roundtrip : forall z rest, int64 z -> stops_int rest ->
 Proof. exact RoundTripInst.rt_int_roundtrip. Qed.
 Print Assumptions c15_int_roundtrip.
 
-(* Int through a numeric specification (int_directive_ok lists the two classes):
-   - %[+][ ][0][width][l]d / i of a value the directive represents (int64 with l, int32 without), read back
-     by %[l]d, or by %[l]i when no zero padding was requested; without `l` this needs the sign restoration
-     of scan_from_with (F6);
-   - %[0][width][l]u / x / X / o read back by a directive of the same base: with `l` for EVERY int64
-     (two's complement), without `l` for 0 <= z < 2^32;
+(* Int through a numeric specification (int_directive_ok lists the two classes), for EVERY length modifier:
+   the modifier enters through the width of the C type it names (spec_half: hh char 2^7, h short 2^15,
+   none int 2^31 — these three narrow the int64 argument — and l ll j z t q: 2^63, no narrowing);
+   in_range sp z / urange sp z = the named type holds z.
+   - %[+][ ][0][width][mod]d / i, read back by %[mod']d, or by %[mod']i when no zero padding was requested,
+     whenever both named types hold z; for the narrow ones this needs the sign restoration of scan_from_with
+     (c15_int_restore: present for none, h and hh);
+   - %[0][width][mod]u / x / X / o read back by a directive of the same base and width class: for a 64-bit
+     modifier for EVERY int64 (two's complement), for a narrow one for 0 <= z < 2^bits;
    the value comes back equal and exactly the characters written are consumed *)
 Theorem c15_int_spec_roundtrip : forall sp ssp z rest, int_directive_ok rt_cfg sp ssp z rest ->
   scan_num rt_cfg ssp (print_num sp (VInt z) ++ rest)%list = Some (VInt z, length (print_num sp (VInt z))).
 Proof. exact RoundTripInst.rt_int_spec_roundtrip. Qed.
 Print Assumptions c15_int_spec_roundtrip.
+
+(* scan_from_with gives a d / i result its sign back for every narrow directive (none, h, hh) *)
+Theorem c15_int_restore : forall sp, int_restore rt_cfg sp = true.
+Proof. exact RoundTripInst.rt_int_restore. Qed.
+Print Assumptions c15_int_restore.
+
+(* repaired (e7aab6f): %hhd / %hd results were zero-extended: -1 came back as 255 *)
+Theorem c15_scan_hh_zero_extends_refuted :
+  scan_num cfg_no_narrow spec_hhd (print_num spec_hhd (VInt (-1))) = Some (VInt 255, 2) /\
+  scan_num rt_cfg spec_hhd (print_num spec_hhd (VInt (-1))) = Some (VInt (-1), 2).
+Proof. exact RoundTripInst.rt_scan_hh_zero_extends_refuted. Qed.
+Print Assumptions c15_scan_hh_zero_extends_refuted.
 
 (* sequences of Strings and Ints with separators, at any start position, String sink and source.
    lits_ok: every run of literal text (the pieces between "%%"s) that ends in white space is followed
@@ -111,7 +126,7 @@ Print Assumptions c15_seq_roundtrip_file.
 (* D8 (repaired): through "%f" the scanner stores a float; 123456789.123456 comes back as 123456792.0 *)
 Theorem c15_float_look_single_refuted :
   exists b b', decode_double b <> None /\
-    scan_num (Build_config nil nil true false true true true) (spec_f false) (print_num (spec_f false) (VFloat b))
+    scan_num (Build_config nil nil true false true true true true) (spec_f false) (print_num (spec_f false) (VFloat b))
     = Some (VFloat b', 16) /\ b = 4728057454355442549%N /\ b' = 4728057454548484096%N.
 Proof. exact RoundTripFloat.float_look_single_refuted. Qed.
 Print Assumptions c15_float_look_single_refuted.
@@ -164,3 +179,7 @@ Example c15_ex_int_directive_lX : int_directive_ok rt_cfg spec_lX spec_lx (-5) e
 Proof. exact RoundTripInst.ex_int_directive_lX. Qed.
 Example c15_ex_lits_ok_pct : lits_ok rt_cfg ex_items_pct ex_rest /\ show_seq_ok rt_cfg ex_items_pct ex_rest.
 Proof. exact RoundTripInst.ex_lits_ok_pct. Qed.
+Example c15_ex_int_directive_hhd : int_directive_ok rt_cfg spec_hhd spec_hhd (-128) ex_rest.
+Proof. exact RoundTripInst.ex_int_directive_hhd. Qed.
+Example c15_ex_int_directive_hx : int_directive_ok rt_cfg spec_hx spec_hx 65535 ex_rest.
+Proof. exact RoundTripInst.ex_int_directive_hx. Qed.
